@@ -222,7 +222,9 @@ func (t *Template) execute(ctx context.Context, wr io.Writer, data interface{}, 
 			)
 		}
 	case reflect.Map:
-		for _, k := range value.MapKeys() {
+		// sorted, so that of two keys which differ only in the case of the first letter
+		// (`Foo`, `foo`) always the same one is bound to `$foo`
+		for _, k := range sortKeys(value.MapKeys()) {
 			if k.Kind() == reflect.Interface {
 				k = k.Elem()
 			}
